@@ -192,7 +192,14 @@ def history(req):
         eq, options, inputs = G.build_tokamak(cfg)
         mesh = BoutMesh(eq, options)
         mesh.geometry()
-        res.append({k: G.mla_dict(mesh.__dict__[k]) for k in ("Rxy", "Zxy", "hy", "g22", "J", "zShift", "Bpxy", "pressure", "curl_bOverB_z") if k in mesh.__dict__})
+        d = {k: G.mla_dict(mesh.__dict__[k]) for k in ("Rxy", "Zxy", "hy", "g22", "J", "zShift", "Bpxy", "pressure", "curl_bOverB_z") if k in mesh.__dict__}
+        # the evaluated option sets (what is embedded in the grid file as hypnotoad_inputs_yaml)
+        ev = {}
+        for nm, o in (("equilibrium.user_options", eq.user_options), ("equilibrium.nonorthogonal_options", eq.nonorthogonal_options), ("mesh.user_options", mesh.user_options)):
+            for k, v in dict(o).items():
+                ev[f"{nm}.{k}"] = repr(v)
+        d["__options__"] = ev
+        res.append(d)
     with open(req["out"], "wb") as f:
         pickle.dump(res, f, protocol=4)
     print("@@JSON " + json.dumps(dict(done=True)))
